@@ -9,6 +9,7 @@ path-prefix substitution inside ruler's own text; DESIGN.md section 1.1):
     std::collections::      -> crate::vstd::collections::
     use std::thread;        -> use crate::vstd::thread;
     use std::sync::mpsc::   -> use crate::vstd::mpsc::
+    <recv>.sort()           -> <recv>.vsort()   (trait crate::vstd::VSort, imported by a one-line prelude)
 
 and the harness text from <crate>/harness/<module>.rs is appended, so that the
 harnesses live in the same module as the real code and can reach private
@@ -38,7 +39,13 @@ SUBS = [
     (re.compile(r"\bstd::collections::"), "crate::vstd::collections::"),
     (re.compile(r"\buse std::thread;"), "use crate::vstd::thread;"),
     (re.compile(r"\buse std::sync::mpsc::"), "use crate::vstd::mpsc::"),
+    # `<[T]>::sort` on a Vec/slice receiver -> crate::vstd::VSort::vsort (std's sort natively, an
+    # exact small-slice sorting network under Kani); the trait is brought into scope by PRELUDE
+    (re.compile(r"\.sort\(\)"), ".vsort()"),
 ]
+
+PRELUDE = "#[allow(unused_imports)] use crate::vstd::VSort as _;\n"
+
 
 
 def generate(crate_dir, extra_cfg_test=None):
@@ -58,6 +65,9 @@ def generate(crate_dir, extra_cfg_test=None):
         for rx, rep in SUBS:
             text, n = rx.subn(rep, text)
             nsub += n
+        # keep ruler's line numbers: the prelude goes on the (first) line, not before it
+        if m != "system/mod":
+            text = PRELUDE.rstrip("\n") + " " + text if not text.startswith("#!") else text
         hbase = m.replace("/", "_")
         hfiles = [hbase + ".rs"]
         if os.path.isdir(harness):
